@@ -292,67 +292,80 @@ def readLiterals (lit : Code) : Nat → Bytes → List Bool → Option (Bytes ×
     | none => none
     | some (b, r) => readLiterals lit n (acc ++ [b]) r
 
-/-- §9.3 / §10: the command loop.  `done` = bytes of this meta-block produced so far.
-One unit of fuel per command; a command of a valid stream produces at least one byte. -/
+/-- §5: the insert half of a command: the insert-and-copy symbol, the insert extra bits, the copy
+extra bits, then `insert length` literals (an insert length beyond MLEN is an error).
+Returns (insert length, copy length, "distance symbol 0 is implied", output so far, rest). -/
+def readInsert (lit cmd : Code) (mlen done : Nat) (out : Bytes) (bs : List Bool) :
+    Option (Nat × Nat × Bool × Bytes × List Bool) :=
+  match cmd.read bs with
+  | none => none
+  | some (sym, bs) =>
+    if sym ≥ 704 then none else
+    match rfcInsTable[(rfcCmdDecode sym).1]?, rfcCopyTable[(rfcCmdDecode sym).2.1]? with
+    | some (ib, ie), some (cb, ce) =>
+      match takeBits ie bs with
+      | none => none
+      | some (e1, bs) =>
+        match takeBits ce bs with
+        | none => none
+        | some (e2, bs) =>
+          if ib + e1 > mlen - done then none else
+          match readLiterals lit (ib + e1) [] bs with
+          | none => none
+          | some (lits, bs) => some (ib + e1, cb + e2, (rfcCmdDecode sym).2.2, out ++ lits, bs)
+    | _, _ => none
+
+/-- §4 / §8: what a copy of `copyLen` bytes with distance symbol `ds` and extra bits `extra` does:
+LZ77 copy if the distance is at most `min(bytes produced so far, window)`, else the static
+dictionary word `distance − max_distance − 1`.  `done` = bytes of the meta-block produced so far.
+Returns (bytes produced, new state). -/
+def applyCopy (wo : WordOracle) (window npostfix ndirect mlen done copyLen : Nat) (out : Bytes)
+    (ring : List Int) (ds extra : Nat) : Option (Nat × RdSt) :=
+  match rfcDistance npostfix ndirect ring ds extra with
+  | none => none
+  | some (d, upd) =>
+    if d ≤ 0 then none else
+    if d.toNat ≤ min out.length window then
+      if done + copyLen > mlen then none else
+      some (copyLen, ⟨copyBytes copyLen d.toNat out, if upd then d :: ring.take 3 else ring⟩)
+    else
+      if copyLen < 4 ∨ copyLen > 24 then none else
+      match wo copyLen ((d.toNat - min out.length window - 1) % 2 ^ dictSizeBits.getD copyLen 0)
+          ((d.toNat - min out.length window - 1) / 2 ^ dictSizeBits.getD copyLen 0) with
+      | none => none
+      | some word =>
+        if done + word.length > mlen then none else some (word.length, ⟨out ++ word, ring⟩)
+
+/-- the copy half of a command: the distance symbol (implied 0 for command symbols < 128), its
+extra bits, then `applyCopy` -/
+def readCopy (wo : WordOracle) (window npostfix ndirect : Nat) (dist : Code) (mlen done : Nat)
+    (implicit0 : Bool) (copyLen : Nat) (out : Bytes) (ring : List Int) (bs : List Bool) :
+    Option (Nat × RdSt × List Bool) :=
+  match (if implicit0 then some (0, bs) else dist.read bs) with
+  | none => none
+  | some (ds, bs) =>
+    match takeBits (if ds < 16 + ndirect then 0 else rfcDistNBits npostfix ndirect ds) bs with
+    | none => none
+    | some (extra, bs) =>
+      match applyCopy wo window npostfix ndirect mlen done copyLen out ring ds extra with
+      | none => none
+      | some (n, s) => some (n, s, bs)
+
+/-- §9.3 / §10: the command loop.  `done` = bytes of this meta-block produced so far; the
+meta-block ends when MLEN bytes are produced, which may be right after the insert half of a
+command.  One unit of fuel per command. -/
 def readCommands (wo : WordOracle) (window npostfix ndirect : Nat) (lit cmd dist : Code) (mlen : Nat) :
     Nat → Nat → RdSt → List Bool → Option (RdSt × List Bool)
   | 0, _, _, _ => none
   | f + 1, done, s, bs =>
     if done = mlen then some (s, bs) else
-    match cmd.read bs with
+    match readInsert lit cmd mlen done s.out bs with
     | none => none
-    | some (sym, bs) =>
-      if sym ≥ 704 then none else
-      let ic := (rfcCmdDecode sym).1
-      let cc := (rfcCmdDecode sym).2.1
-      let implicit0 := (rfcCmdDecode sym).2.2
-      match rfcInsTable[ic]?, rfcCopyTable[cc]? with
-      | some (ib, ie), some (cb, ce) =>
-        match takeBits ie bs with
-        | none => none
-        | some (e1, bs) =>
-          match takeBits ce bs with
-          | none => none
-          | some (e2, bs) =>
-            let insertLen := ib + e1
-            let copyLen := cb + e2
-            if insertLen > mlen - done then none else
-            match readLiterals lit insertLen [] bs with
-            | none => none
-            | some (lits, bs) =>
-              let out := s.out ++ lits
-              let done := done + insertLen
-              if done = mlen then some (⟨out, s.ring⟩, bs) else
-              -- distance symbol: implicit 0 for command symbols < 128
-              match (if implicit0 then some (0, bs) else dist.read bs) with
-              | none => none
-              | some (ds, bs) =>
-                let nb := if ds < 16 + ndirect then 0 else rfcDistNBits npostfix ndirect ds
-                match takeBits nb bs with
-                | none => none
-                | some (extra, bs) =>
-                  match rfcDistance npostfix ndirect s.ring ds extra with
-                  | none => none
-                  | some (d, upd) =>
-                    if d ≤ 0 then none else
-                    let dd := d.toNat
-                    let maxDistance := min out.length window
-                    if dd ≤ maxDistance then
-                      if done + copyLen > mlen then none else
-                      readCommands wo window npostfix ndirect lit cmd dist mlen f (done + copyLen)
-                        ⟨copyBytes copyLen dd out, if upd then d :: s.ring.take 3 else s.ring⟩ bs
-                    else
-                      -- §8: static dictionary reference
-                      if copyLen < 4 ∨ copyLen > 24 then none else
-                      let wordId := dd - maxDistance - 1
-                      let nbits := dictSizeBits.getD copyLen 0
-                      match wo copyLen (wordId % 2 ^ nbits) (wordId / 2 ^ nbits) with
-                      | none => none
-                      | some word =>
-                        if done + word.length > mlen then none else
-                        readCommands wo window npostfix ndirect lit cmd dist mlen f (done + word.length)
-                          ⟨out ++ word, s.ring⟩ bs
-      | _, _ => none
+    | some (ins, cl, imp, out, bs) =>
+      if done + ins = mlen then some (⟨out, s.ring⟩, bs) else
+      match readCopy wo window npostfix ndirect dist mlen (done + ins) imp cl out s.ring bs with
+      | none => none
+      | some (n, s', bs) => readCommands wo window npostfix ndirect lit cmd dist mlen f (done + ins + n) s' bs
 
 /-- §9.2 after the meta-block header of a compressed meta-block: block-type / context / tree
 counts (all required to be 1 here), NPOSTFIX, NDIRECT, the context mode of the single literal
